@@ -141,7 +141,8 @@ func genMixedLists(t *rapid.T, fileChance int) (lists []ListSpec, models []NetMo
 			names = append(names, hostColliders[0][0], hostColliders[0][1])
 			lines = append(lines, pick(t, "hip", []string{"0.0.0.0", "::1", "10.0.0.1"})+" "+pick(t, "hname", names))
 		case 1:
-			lines = append(lines, pick(t, "cosm", []string{"example.org##.a", "~a.com##.b", "example.*##.c", "example.org#@#.a", "##.generic"}))
+			lines = append(lines, pick(t, "cosm", []string{"example.org##.a", "~a.com##.b", "example.*##.c", "example.org#@#.a", "##.generic",
+				"sub.example.org#@#.a", "example.org##.z", "example.org,a.com##.y", "sub.example.org#@#.c", "a.com#@#.y"}))
 		case 2:
 			lines = append(lines, "||example.org^$dnsrewrite="+pick(t, "rw", []string{"1.2.3.4", "NXDOMAIN", "NOERROR;MX;10 m.x", "x.com", "NOERROR;A;4.3.2.1"})+pick(t, "rwimp", []string{"", ",important"}))
 		case 3:
@@ -165,10 +166,31 @@ func genMixedLists(t *rapid.T, fileChance int) (lists []ListSpec, models []NetMo
 		{Pat: "example", GRestr: []string{"pc"}, Deny: []string{"b.net"}},
 		{Pat: "||a.com^", Exc: true, Extra: []string{"document"}},
 		{Pat: "||b.net^", Exc: true, Extra: []string{"genericblock"}},
+		// $domain rules on several levels of one source host (domain-table buckets walked in order)
+		{Pat: "ab", DPerm: []string{"org"}},
+		{Pat: "ab", DPerm: []string{"example.org", "a.com"}},
+		{Pat: "ab", DPerm: []string{"sub.example.org"}},
 	}
 	for _, m := range sensitive {
 		models = append(models, m)
 		lines = append(lines, renderNet(t, m))
+	}
+	// badfilter twins of some rules with multi-valued lists, written in another value order
+	for i := rapid.IntRange(0, 3).Draw(t, "ntwins"); i > 0; i-- {
+		m := models[rapid.IntRange(0, len(models)-1).Draw(t, "twin-of")]
+		if inList("badfilter", m.Extra) {
+			continue
+		}
+		tw := m
+		tw.Extra = append(append([]string{}, m.Extra...), "badfilter")
+		lines = append(lines, renderNet(t, tw))
+	}
+	if chance(t, "multi-valued-twin", 2) {
+		m := NetModel{Pat: "||example.org^", QPerm: []string{"TXT", "A", "MX", "AAAA"}, Deny: []string{"x-y.net", "b.net", "a.com"}}
+		tw := m
+		tw.Extra = []string{"badfilter"}
+		models = append(models, m)
+		lines = append(lines, renderNet(t, m), renderNet(t, tw))
 	}
 	lines = shuffledKeepDup(t, lines)
 	lists = distribute(t, lines, rapid.IntRange(1, 3).Draw(t, "nlists"))
